@@ -7,6 +7,7 @@ pub mod common;
 pub mod corpus;
 pub mod effects;
 pub mod engines;
+pub mod ffi;
 pub mod props;
 pub mod refmodel;
 pub mod universe;
